@@ -32,5 +32,8 @@ props! {
     "C10" => c10,
     "C11" => c11,
     "C12" => c12,
+    "C14" => c14,
+    "C15" => c15,
+    "C19" => c19,
     "C20" => c20,
 }
